@@ -21,6 +21,6 @@ def emit(target, fn):
 
 # the quick tier only needs its own harnesses (keeps the crate small and the build fast)
 emit(os.path.join(here, "src", "gen_c15.rs"),
-     lambda p: gen_c15.generate(p, only=None if tier == "thorough" else gen_c15.QUICK))
+     lambda p: gen_c15.generate(p, quick_only=(tier != "thorough")))
 emit(os.path.join(here, "src", "gen_c16.rs"),
      lambda p: gen_c16.generate(p, tier))
